@@ -4,3 +4,6 @@ claim("C12", "E1", "explicit-state BFS over real Stack operation histories vs Ve
 claim("C13", "E1", "explicit-state BFS over real Gas operation histories vs i128 model",
       "Every sequence up to depth 6/8 of record_cost/child-frame/record_refund/spend_all/set_final_refund/set_spent/set_refund from 8 limits is run on the real Gas and compared with an i128 model and the meter invariants after every step.",
       "erase_cost is only used to return gas previously charged (frame accounting contract); refunds inside i64.", "4/C13")
+claim("C06", "E1", "explicit-state BFS over real JournaledState histories; snapshot-stack oracle on every revert/commit",
+      "Every history up to depth 4 (quick) / 5 (thorough) of load/touch/transfer/inc_nonce/sload/sstore/tstore/log/selfdestruct/create-account/set_code with up to 3 nested checkpoints, on 4 specs and 3 initial histories (incl. access-list and pre-warmed entries, a 2^256-1 balance), is executed on the real JournaledState; each revert is compared with a snapshot of the full observable projection taken at its checkpoint.",
+      "Operations follow EvmContext's calling contract (accounts loaded before use, LIFO checkpoints, no second creation of one address before Spurious Dragon); address 0x03 touch quirk excluded; self-destruct with overflowing beneficiary not driven (C08).", "4/C06")
